@@ -25,8 +25,19 @@ COMMADEC = NOWELL.replace("1.0 10\n1.5 20\n", "1,0 10,5\n1,5 20,25\n")
 COMMADLM = NOWELL.replace("WRAP. NO : w\n", "WRAP. NO : w\nDLM. COMMA : d\n").replace("1.0 10\n1.5 20\n", "1.0,10\n1.5,20\n")
 # section titles that do not start in column 0 (odd and even numbers of leading blanks)
 INDENT = FULL.replace("~Params", " ~Params").replace("~Other", "   ~Other").replace("~Curves", "  ~Curves")
-CONTENTS = {"full": FULL, "nowell": NOWELL, "cyr": CYR, "nel": NEL, "commadec": COMMADEC, "commadlm": COMMADLM, "indent": INDENT}
-TOKENS = {"full": ["café Nº1", "wéll name", "µ-field", "° sign", "µR/h", "gamma é", "°C", "free téxt"],
+# files longer than the 4000-byte sample lasio takes for encoding detection, with multi-byte characters on both sides of (and,
+# for one of the two alignments and each BOM / newline variant, across) that boundary
+def _long(shift):
+    pad = "".join("P%03d.M %d : filler line %d\n" % (i, i, i) for i in range(100))
+    head = FULL.split("~Other")[0] + pad
+    n = len(head.encode("utf-8"))
+    fill = "X" * max(0, 3890 + shift - n)
+    return head + "LONG. 1 : " + fill + "é" * 120 + " end\n~Other" + FULL.split("~Other")[1]
+
+
+LONGA, LONGB = _long(0), _long(1)
+CONTENTS = {"longa": LONGA, "longb": LONGB, "full": FULL, "nowell": NOWELL, "cyr": CYR, "nel": NEL, "commadec": COMMADEC, "commadlm": COMMADLM, "indent": INDENT}
+TOKENS = {"longa": ["é" * 120 + " end", "café Nº1"], "longb": ["é" * 120 + " end", "free téxt"], "full": ["café Nº1", "wéll name", "µ-field", "° sign", "µR/h", "gamma é", "°C", "free téxt"],
           "nowell": ["depth é"],
           "cyr": ["скважина", "м", "µR/h"],
           "nel": ["ca\x85fé\xa0Nº1", "free\x85téxt", "µ-field"], "commadec": ["depth é"], "commadlm": ["depth é"],
